@@ -1821,29 +1821,29 @@ class Merge3Merger:
             is_cherrypick=self.cherrypick,
             sequence_matcher=patiencediff.PatienceSequenceMatcher,
         )
-        start_marker = b"!START OF MERGE CONFLICT!" + b"I HOPE THIS IS UNIQUE"
         base_marker = b"|" * 7 if self.show_base is True else None
 
         def iter_merge3(retval):
             retval["text_conflicts"] = False
             if base_marker and self.reprocess:
                 raise CantReprocessAndShowBase()
-            lines = list(
-                m3.merge_lines(
-                    name_a=b"TREE",
-                    name_b=b"MERGE-SOURCE",
-                    name_base=b"BASE-REVISION",
-                    start_marker=start_marker,
-                    base_marker=base_marker,
-                    reprocess=self.reprocess,
-                )
+            # Whether there is a conflict is a property of the merge regions,
+            # not of the rendered lines: a line of the user's text may look
+            # like any marker we could pick.
+            regions = m3.merge_regions()
+            if self.reprocess:
+                regions = m3.reprocess_merge_regions(regions)
+            retval["text_conflicts"] = any(
+                region[0] == "conflict" for region in regions
             )
-            for line in lines:
-                if line.startswith(start_marker):
-                    retval["text_conflicts"] = True
-                    yield line.replace(start_marker, b"<" * 7)
-                else:
-                    yield line
+            yield from m3.merge_lines(
+                name_a=b"TREE",
+                name_b=b"MERGE-SOURCE",
+                name_base=b"BASE-REVISION",
+                start_marker=b"<" * 7,
+                base_marker=base_marker,
+                reprocess=self.reprocess,
+            )
 
         retval = {}
         merge3_iterator = iter_merge3(retval)
